@@ -144,6 +144,62 @@ def _c09():
 PROPS["C09"] = _c09()
 
 # ---------------------------------------------------------------------------------------------
+# C18
+# ---------------------------------------------------------------------------------------------
+def _c18():
+    names = ['c18_udp_parse_dom_n0', 'c18_udp_parse_dom_n3', 'c18_udp_parse_dom_n4', 'c18_udp_parse_dom_n5', 'c18_udp_parse_dom_n7', 'c18_udp_parse_dom_n8', 'c18_udp_parse_dom_n10', 'c18_udp_parse_badatyp_n10', 'c18_udp_parse_badatyp0_n10', 'c18_udp_parse_v4_n9', 'c18_udp_parse_v4_n10', 'c18_udp_parse_v4_n12', 'c18_udp_parse_v6_n21', 'c18_udp_parse_v6_n22', 'c18_udp_parse_v6_n23', 'c18_udp_build_v4_p0', 'c18_udp_build_v4_p3', 'c18_udp_build_v6_p0', 'c18_udp_build_v6_p2', 'c18_v5req_v4_n0', 'c18_v5req_v4_n1', 'c18_v5req_v4_n3', 'c18_v5req_v4_n4', 'c18_v5req_v4_n7', 'c18_v5req_v4_n9', 'c18_v5req_v4_n10', 'c18_v5req_v4_n12', 'c18_v5req_v6_n21', 'c18_v5req_v6_n22', 'c18_v5req_dom0_n6', 'c18_v5req_dom0_n7', 'c18_v5req_dom2_n8', 'c18_v5req_dom2_n9', 'c18_v5req_dom2_n10', 'c18_v5req_dom1_n4', 'c18_v5req_dom1_n5', 'c18_v5req_badatyp_n10', 'c18_v5req_badatyp5_n10', 'c18_v5methods_n0', 'c18_v5methods_nm0_n1', 'c18_v5methods_nm2_n2', 'c18_v5methods_nm2_n3', 'c18_v5methods_nm2_n5', 'c18_v4req_ip_u0', 'c18_v4req_ip_u2', 'c18_v4req_ip_u2_unterminated', 'c18_v4req_ip_u0_unterminated', 'c18_v4req_ip_trunc_n5', 'c18_v4req_ip_trunc_n0', 'c18_v4req_4a_u1_d2', 'c18_v4req_4a_u0_d0', 'c18_v4req_4a_u0_d2_unterminated', 'c18_v4req_4a_u0_nodomain', 'c18_v5reply_v4', 'c18_v5reply_v6', 'c18_small_replies']
+    # the SOCKS5 request reader (nested async fns) and the longer SOCKS4 shapes need minutes:
+    # thorough tier only
+    slow = lambda n: n.startswith("c18_v5req_") or n in ("c18_v4req_4a_u1_d2", "c18_v4req_ip_u2_unterminated", "c18_v4req_4a_u0_d2_unterminated")
+    thorough_only = {"c18_udp_parse_dom_n3", "c18_udp_parse_dom_n8", "c18_udp_parse_badatyp0_n10", "c18_udp_parse_v4_n12", "c18_udp_parse_v6_n23",
+                     "c18_udp_build_v6_p2", "c18_v5req_v4_n1", "c18_v5req_v4_n3", "c18_v5req_v4_n7", "c18_v5req_v4_n12", "c18_v5req_dom2_n8",
+                     "c18_v5req_badatyp5_n10", "c18_v5methods_nm2_n5", "c18_v4req_ip_trunc_n0"}
+    # The coroutine state of the async readers is not folded by the symbolic execution: every
+    # later await point is explored (under an infeasible guard) even when an early read fails.
+    # The helper loops of the tokio shim run at most twice on an always-ready in-memory stream;
+    # bound them so that the infeasible explorations stay cheap (unwinding assertions stay on).
+    io_loops = [(r"tokio::io::(ReadInt|ReadExact|WriteAll|ReadUntil|Read|Write)\b", 3)]
+    hs = [H(n, tier="thorough" if (n in thorough_only or slow(n)) else "quick", profiles=("dev", "rel"), timeout=(3000 if slow(n) else None), mem_gb=(20 if slow(n) else None), unwindset=io_loops if ("req" in n or "methods" in n) and "v4req" not in n else (),
+            note="message octets symbolic except the constants named in the harness") for n in names]
+    return dict(
+        kind="ext", module="c18", shims=["bytes", "tokio", "tracing", "tracing-attributes", "parking_lot_core"],
+        harnesses=hs,
+        bounds=dict(message_len="concrete per harness: every truncation point around each field boundary (UDP header 0..12 / 21..23 octets; SOCKS5 request 0..12 / 21,22; SOCKS4 0..12)",
+                    domain_len="0,1,2 (SOCKS5), 0,2 (SOCKS4a)", userid_len="0,1,2", payload="0..3 octets", ip_literals="address octets fixed (127.0.0.1, ::1, 10.0.0.200, 192.168.1.9) where the address is rendered as text; symbolic where it is copied (replies, UDP reply)",
+                    everything_else="symbolic (commands, ports, reply codes, reserved octets, methods, payload)"),
+        outside=["domain names / user ids longer than 2 octets", "IP-literal formatting for arbitrary addresses (std fmt code)", "readers that return Pending (the in-memory stream is always ready; the *Ext helpers are the tokio shim)"],
+        assumptions=["tokio shim AsyncReadExt/AsyncBufReadExt/AsyncWriteExt helpers follow tokio's documented behaviour (read_exact/read_uN fail with UnexpectedEof, read_until returns what it has at EOF)"],
+        trusted=[SHIM_TRUST["bytes"], SHIM_TRUST["tokio"], "reference grammar of RFC 1928 / SOCKS4a in harness/ext/src/c18.rs"],
+        explanation="Differential check of the real SOCKS readers/writers against a reference grammar over all octet values of messages of each enumerated length, including every truncation point.",
+    )
+
+
+PROPS["C18"] = _c18()
+
+# ---------------------------------------------------------------------------------------------
+# C19 (decidable part: the back-off generator with the client's call-site parameters)
+# ---------------------------------------------------------------------------------------------
+def _c19():
+    hs = [H("c19_schedule_k1", tier="quick"), H("c19_schedule_k3", tier="quick"), H("c19_schedule_k6", tier="quick"),
+          H("c19_schedule_k12", tier="quick"), H("c19_generic_k3", tier="quick"), H("c19_generic_k6", tier="thorough", timeout=3000, mem_gb=20)]
+    for h in hs:
+        h.profiles = ("dev", "rel")
+        h.note = "all (max_retry_interval: u64 ms, max_retry_count: u32): delays == min(200 ms * 2^k, max); None exactly after max_retry_count; reset restores the start; no arithmetic panic"
+    return dict(
+        kind="ext", module="c19", shims=["bytes", "tokio", "tracing", "tracing-attributes", "parking_lot_core"], harnesses=hs,
+        bounds=dict(max_retry_interval="all u64 milliseconds", max_retry_count="all u32", consecutive_failures="k <= 6 (quick), 12 (thorough), then reset, then one more",
+                    call_site="initial delay and multiplier are extracted from the current penguin/src/client/mod.rs; generic harness: initial/max <= 65535 ms, mult 1..4, count <= 255"),
+        outside=["everything in the rusty-penguin crate: the retry loop itself, retryable classification, reset-after-success wiring, the parked stream request, listeners staying open, "
+                 "and the known behaviour that an orderly WebSocket close leaves the client on a dead multiplexor (needs real sockets, signals and the tokio runtime: not encodable)"],
+        assumptions=["the call-site regex matches (otherwise the build fails and the check is INCONCLUSIVE)"],
+        trusted=["call-site extraction regex in lib/vdriver.py"],
+        explanation="The arithmetic core of the reconnect rule: penguin_mux::timing::Backoff driven with the client's call-site parameters for all configurations.",
+    )
+
+
+PROPS["C19"] = _c19()
+
+# ---------------------------------------------------------------------------------------------
 # MANIFEST texts
 # ---------------------------------------------------------------------------------------------
 WIP = "check not built yet in this session (work in progress; see DESIGN.md §4 for the plan)"
@@ -151,10 +207,20 @@ NOT_APPLICABLE = {
     "C01": "end-to-end behaviour over real TCP/UDP/Unix sockets, the tokio multi-thread runtime, hyper and the rusty-penguin binary crate (rustls/aws-lc FFI in its closure): none of it can be compiled by Kani or encoded by hand within reach; its codec-level ingredients are decided under C02, C09, C11, C13, C18",
     "C17": "certificate-path validation, name matching and client-certificate verification happen inside rustls/webpki/aws-lc-rs (C and assembly behind FFI); the repository's part is a four-arm match that only has meaning through those libraries — nothing a solver can encode",
 }
-for _p in ["C02", "C03", "C04", "C05", "C06", "C07", "C08", "C10", "C11", "C12", "C13", "C14", "C15", "C16", "C18", "C19"]:
+for _p in ["C02", "C03", "C04", "C05", "C06", "C07", "C08", "C10", "C11", "C12", "C13", "C14", "C15", "C16"]:
     NOT_APPLICABLE.setdefault(_p, WIP)
 
 MANIFEST_TEXT = {
+    "C19": dict(
+        design_ref="DESIGN.md §4-C19",
+        level_text="PARTIAL claim. Bounded model checking of penguin_mux::timing::Backoff with the parameters of the client's call site (extracted from the current penguin/src/client/mod.rs): for ALL max_retry_interval (u64 ms) and max_retry_count (u32), the k-th consecutive failure is delayed by min(200 ms x 2^k, max), the generator gives up exactly after max_retry_count failures (never if 0), reset() restores the shortest delay, and no Duration arithmetic panics. The rest of C19 (retry loop, retryable classification, listeners, parked request, behaviour on orderly close) lives in the rusty-penguin crate over real sockets/signals and is outside what this technique can encode - stated, not claimed.",
+        level_note="Trusted: Kani/CBMC; the regex that extracts the call-site parameters. Bounds: k <= 6 consecutive failures (quick) / 12 (thorough). Only the back-off arithmetic is decided; the client's control flow is not.",
+    ),
+    "C18": dict(
+        design_ref="DESIGN.md §4-C18",
+        level_text="Bounded model checking of the real penguin-socks readers and writers against a reference grammar written from RFC 1928 / SOCKS4a: for every message length around each field boundary (all truncation points) and ALL octet values, the readers must return exactly (command, address, port), consume exactly the request, and fail on truncated/unterminated/unknown input; replies and the UDP relay datagram must be byte-exact as a conforming client parses them. The solver covers all octet values, which is how the ATYP-after-address reply and the unterminated SOCKS4 field were found.",
+        level_note="Trusted: Kani/CBMC, the tokio io shim (read_exact/read_uN/read_until/write_all written from tokio's docs), the bytes model, the reference grammar. Bounds: domain/user-id <= 2 octets, payload <= 3 octets; IP addresses that are rendered as text are fixed constants (formatting is std code); longer fields are outside the claim.",
+    ),
     "C09": dict(
         design_ref="DESIGN.md §4-C09",
         level_text="Bounded model checking of the real frame codec (penguin_mux::frame) against an independent reference written from PROTOCOL.md: every public constructor with symbolic field values and enumerated host/payload lengths must encode to the reference bytes and decode back (borrowed and owned) to an equal frame; for EVERY byte string of each enumerated length the decoder must accept exactly the valid ones, never panic in a production build, and re-encode to the input. The solver covers all contents at once, which is where the pinned decoder was wrong (Datagram payloads of 0-3 bytes).",
